@@ -18,7 +18,7 @@ DATA = [
     [(1, 0, 1), (255, 255, 1), (0, 1, 1), (0, 0, 1)],
     [(0, 0, 1), (0, 1, 1), (2, 1, 1), (0, 1, 1)],
 ]
-POPS = [[("A", "B"), ("B", "B"), ("A", "A"), ("B", "A")], [("B", "A"), ("A", "A"), ("A", "B"), ("A", "A")], [("A", "A"), ("A", "B"), ("B", "B"), ("B", "B")]]
+POPS = [[("A", "B"), ("B", "B"), ("A", "A"), ("C", "A")], [("B", "A"), ("A", "A"), ("A", "C"), ("A", "A")], [("A", "A"), ("A", "B"), ("B", "B"), ("B", "C")]]  # label C only at the last two variants: a read of the first ones never meets it
 CLASSES = ["Genotypes", "GenotypesVCF", "GenotypesPLINK", "GenotypesAncestry"]
 
 
@@ -82,7 +82,7 @@ def enc_gt(g):
                 if anc is not None and np.asarray(anc).shape[:2] == d.shape[:2]:
                     inv = {v: k for k, v in g.ancestry_labels.items()}
                     lab = [inv.get(int(x), "?") for x in np.asarray(anc)[i, j]]
-                    code += (1 + "AB?".index(lab[0])) * 2**20 + (1 + "AB?".index(lab[1])) * 2**23
+                    code += (1 + "ABC?".index(lab[0])) * 2**20 + (1 + "ABC?".index(lab[1])) * 2**23
                 elif anc is not None:
                     code += 7 * 2**26  # ancestry array out of step with the data
                 r.append(code)
@@ -102,6 +102,10 @@ def gen_hist_gt(rng, tier):
     for t in range(n):
         cls = CLASSES[t % 4]
         ops = [{"k": "read", "region": None, "samples": None, "variants": None}]
+        if t % 8 >= 6:
+            # a fixed share: the object's first load is a restricted one (it has not seen everything the file holds – not every
+            # ancestry label, for one), the full load comes later
+            ops = [{"k": "read", "region": rng.choice(["1:5-25", "1"]), "samples": None, "variants": None}, {"k": "read", "region": None, "samples": None, "variants": None}]
         for _ in range(rng.randint(2, 7)):
             r = rng.random()
             if r < 0.2:
